@@ -95,7 +95,15 @@ func checkControl(w *World, c *Case, ci int, what string) {
 	m := c.Metas[ci]
 	status, body, hdr, ok := clientResponse(w, c, ci, 0)
 	cl := w.Clients[ci]
-	if !ok || status != 200 || string(body) != "ok:"+m.Reqs[0].Tag || len(hdr["x-backend-tag"]) != 1 {
+	want := "ok:" + m.Reqs[0].Tag
+	if rp := c.Plan.Backend.Resp[m.Reqs[0].Tag]; rp != nil && rp.Body != nil {
+		want = string(rp.Body)
+	}
+	if ok && status == 200 && string(body) != want && len(want) > 200 {
+		w.Violate("control_not_served", "control_not_served:"+what, "after %s the control client c%d (%s) received %d body bytes that are not the %d bytes the back-end sent", what, ci, m.Proto, len(body), len(want))
+		return
+	}
+	if !ok || status != 200 || string(body) != want || len(hdr["x-backend-tag"]) != 1 {
 		w.Violate("control_not_served", "control_not_served:"+what, "after %s the control client c%d (%s) was not served correctly: ok=%v status=%d body=%q connectErr=%q handshakeErr=%q stepErrs=%v", what, ci, m.Proto, ok, status, body, cl.ConnectErr, cl.HandshakeErr, cl.StepErrs)
 		return
 	}
@@ -435,7 +443,7 @@ func drawC11(t *rapid.T) *Case {
 
 func init() {
 	register(&CheckDef{ID: "C10", Level: "fault_enumeration", Engine: "A", Draw: drawC10,
-		Rule:     "random part: a faulty client (random bytes on the raw TCP connection; random / mutated / truncated HTTP/2 frame bytes or HTTP/1.1 garbage inside a real TLS session; abort at a random offset; injected I/O error or callback panic; 35%: back-end answers that outlive drawn -timeout-http-read / -timeout-http-write values) runs next to a concurrent control client and before a second control client; oracle: the worker process is alive and both control clients are served with correct fingerprints. Non-trivial: a fault fired or garbage was sent. Distinct: distinct controller action-label sequences.",
+		Rule:     "random part: a faulty client (random bytes on the raw TCP connection; random / mutated / truncated HTTP/2 frame bytes or HTTP/1.1 garbage inside a real TLS session; abort at a random offset; injected I/O error or callback panic; one kind in seven: an HTTP/2 client that cancels 1-4 downloads of 20-300 kB as soon as their response headers have arrived, with every frame write held in flight by the controller, next to control clients that fetch answers of 5-60 kB compared byte for byte; 35%: back-end answers that outlive drawn -timeout-http-read / -timeout-http-write values) runs next to a concurrent control client and before a second control client; oracle: the worker process is alive and both control clients are served with correct fingerprints. Non-trivial: a fault fired or garbage was sent. Distinct: distinct controller action-label sequences.",
 		EnumRule: "enumerated part: 9360 boundary frames (every frame type 0-9 x 8 flag sets x length 0-12 x 9 pad-length octets around the frame length and around length minus the fixed fields) behind a legal preface and an open stream; 156 frames (every type 0-12 x 4 flag sets x own / other / zero stream) sent between a HEADERS frame without END_HEADERS and its CONTINUATION, and 52 two-frame cases there (a WINDOW_UPDATE with increment 0 on a stream - a stream error the frame reader survives - followed by a frame of every type); then, over a fixed HTTP/1.1 session, a fixed HTTP/2 session and a fixed HTTP/1.1 session that upgrades the protocol and sends two messages through the tunnel: client disconnect (FIN and RST) after EVERY byte offset; a read error (ECONNRESET / timeout / generic), a write error (EPIPE / timeout) and a deadline-setter error at EVERY I/O operation index of the proxy side of the connection; a panic at EVERY occurrence of each user callback reachable from the connection goroutine (GetConfigForClient, GetCertificate, ConnState, header injector, request handler). After each case a control client performs a full request on a fresh connection. Quick tier: stride sample; thorough tier: every index.",
 		Enum:     &EnumDef{Params: faultParams, Count: c10Count, Case: c10Case}})
 }
@@ -657,7 +665,36 @@ func drawC10(t *rapid.T) *Case {
 	var m *ClientMeta
 	var slowTags []string
 	what := ""
-	switch rapid.IntRange(0, 5).Draw(t, "faulty") {
+	bigControl := false
+	switch rapid.IntRange(0, 6).Draw(t, "faulty") {
+	case 6:
+		// an HTTP/2 client that cancels large downloads as soon as their response headers have
+		// arrived, while DATA frames of theirs are being written (write fence): whatever a
+		// cancelled stream leaves behind - queued frames, pooled objects, write results - must
+		// not touch what other connections are served (wave 12, C10-t); the control clients
+		// fetch multi-frame answers in these runs (below the 65535 octets an HTTP/2 client grants by default)
+		bigControl = true
+		p.WriteFences = true
+		cp = &ClientPlan{ID: 0, Addr: "198.51.100.10:32000", Hello: fixedHello("h2")}
+		m = &ClientMeta{Proto: "h2", Kind: "h2cancel"}
+		enc := NewHEnc()
+		pre := append([]byte(ClientPreface), FramesBytes(SettingsFrame(Setting{4, 1 << 30}), WindowUpdateFrame(0, 1<<30))...)
+		cp.Steps = []Step{{Kind: "connect"}, {Kind: "write", Pieces: [][]byte{pre}}}
+		if p.Backend.Resp == nil {
+			p.Backend.Resp = map[string]*RespPlan{}
+		}
+		for k, n := 0, rapid.IntRange(1, 4).Draw(t, "ncancel"); k < n; k++ {
+			r := ReqSpec{Tag: fmt.Sprintf("c0-r%d", k), Method: "GET", Path: fmt.Sprintf("/big%d", k), Host: "fixed.verif.test"}
+			m.Reqs = append(m.Reqs, r)
+			p.Backend.Resp[r.Tag] = &RespPlan{Status: 200, Body: bodyBytes(r.Tag, []int{20000, 70000, 300000}[rapid.IntRange(0, 2).Draw(t, "cancelsz")])}
+			id := uint32(2*k + 1)
+			cp.Steps = append(cp.Steps,
+				Step{Kind: "write", Pieces: [][]byte{FramesBytes(H2RequestFrames(enc, id, r, nil, nil, nil, nil)...)}},
+				Step{Kind: "h2headers", Streams: []uint32{id}},
+				Step{Kind: "write", Pieces: [][]byte{FramesBytes(RSTFrame(id, ErrCancel))}})
+		}
+		cp.Steps = append(cp.Steps, Step{Kind: "close"})
+		what = "h2 client cancelling downloads under writes in flight"
 	case 0:
 		cp, m = DrawConnClient(t, 0, "garbage", 1)
 		what = "raw garbage"
@@ -755,7 +792,12 @@ func drawC10(t *rapid.T) *Case {
 	c2, m2 := controlClient([]string{"h1", "h2"}[rapid.IntRange(0, 1).Draw(t, "ctl2")], 2, []int{0})
 	p.Clients = []*ClientPlan{cp, c1, c2}
 	p.Args = []string{"-timeout-tls-handshake", "1s"}
-	if drawBool(t, "slow", 35) {
+	if bigControl {
+		for _, mm := range []*ClientMeta{m1, m2} {
+			p.Backend.Resp[mm.Reqs[0].Tag] = &RespPlan{Status: 200, Header: [][2]string{{"X-Backend-Tag", mm.Reqs[0].Tag}}, Body: bodyBytes(mm.Reqs[0].Tag, []int{5000, 30000, 60000}[rapid.IntRange(0, 2).Draw(t, "ctlsz")])}
+		}
+	}
+	if !bigControl && drawBool(t, "slow", 35) {
 		// the faulty client's requests outlive the configured read / write timeouts
 		if drawBool(t, "readto", 70) {
 			p.Args = append(p.Args, "-timeout-http-read", []string{"1s", "2s"}[rapid.IntRange(0, 1).Draw(t, "readtov")])
